@@ -13,7 +13,61 @@ pub fn worker(family: &str, start: u64, end: u64, step: u64, arg: &str) {
     }
 }
 
+/// A collection that finds META_LOCK taken (a reader in the middle of loading the index holds it) waits for it:
+/// a thread holds the lock for `hold_ms` across a commit that empties a segment (its collection runs on the
+/// updater thread inside the commit); once the commit has returned and the lock is released, the directory
+/// holds exactly the committed files - without any further collection.
+pub fn check_gc_waits_for_meta_lock(hold_ms: u64, sim_dir: bool) -> Option<(String, String)> {
+    use tantivy::directory::{Directory, META_LOCK};
+    use tantivy::{Index, IndexWriter, TantivyDocument, Term};
+    // no scheduling hook: the lock retries sleep for as long as the subject says
+    tantivy::verif_hooks::set_handler(None);
+    let schema = crate::wl::schema();
+    let idf = schema.get_field("id").unwrap();
+    let sim = crate::simdir::SimDirectory::new();
+    sim.set_log_enabled(false);
+    let index = if sim_dir { crate::orv!(Index::create(sim.clone(), schema.clone(), tantivy::IndexSettings::default()), "Index::create") } else { Index::create_in_ram(schema.clone()) };
+    let mut w: IndexWriter = crate::orv!(index.writer_with_num_threads(1, 15_000_000), "writer");
+    w.set_merge_policy(Box::new(tantivy::merge_policy::NoMergePolicy));
+    for seg in 0..2u64 {
+        for k in 0..2u64 {
+            let d: TantivyDocument = crate::wl::make_doc(&schema, seg * 2 + k);
+            crate::orv!(w.add_document(d), "add_document");
+        }
+        crate::orv!(w.commit(), "commit");
+    }
+    let files_before = index.directory().list_managed_files().len();
+    // the holder: a blocking lock, like the one a reader takes while it loads meta.json and opens the segments
+    let dir = index.directory().clone();
+    let (tx, rx) = std::sync::mpsc::channel::<()>();
+    let holder = std::thread::spawn(move || {
+        let lock = dir.acquire_lock(&META_LOCK);
+        let _ = tx.send(());
+        std::thread::sleep(std::time::Duration::from_millis(hold_ms));
+        drop(lock);
+    });
+    let _ = rx.recv();
+    // empties the first segment: the commit's collection has two segments' worth of files to consider
+    w.delete_term(Term::from_field_u64(idf, 0));
+    w.delete_term(Term::from_field_u64(idf, 1));
+    crate::orv!(w.commit(), "commit (emptying a segment)");
+    let _ = holder.join();
+    crate::orv!(w.wait_merging_threads(), "wait_merging_threads");
+    let managed: std::collections::BTreeSet<String> = index.directory().list_managed_files().into_iter().map(|p| p.to_string_lossy().to_string()).collect();
+    let metas = crate::orv!(index.searchable_segment_metas(), "searchable_segment_metas");
+    let mut want: std::collections::BTreeSet<String> = metas.iter().flat_map(|m| m.list_files()).map(|p| p.to_string_lossy().to_string()).collect();
+    want.insert("meta.json".to_string());
+    let orphans: Vec<&String> = managed.iter().filter(|f| !want.contains(*f) && !f.ends_with(".lock")).collect();
+    if !orphans.is_empty() {
+        return Some(("orphan_files_after_commit_while_meta_lock_was_held".into(), format!("META_LOCK was held for {hold_ms} ms across a commit that emptied a segment ({files_before} managed files before): after the commit returned and the lock was released the managed files still hold {orphans:?}, which no committed segment uses (the commit's collection gave up instead of waiting for the lock)")));
+    }
+    None
+}
+
 pub fn replay(case: &Value) -> Vec<Violation> {
+    if let Some(h) = case["meta_lock_hold_ms"].as_u64() {
+        return check_gc_waits_for_meta_lock(h, case["sim"].as_bool().unwrap_or(false)).map(|(r, w)| Violation::new(&r, w, case.clone())).into_iter().collect();
+    }
     if case["image"].is_object() {
         crate::c01::replay(case)
     } else if case.get("point").is_some() {
@@ -31,6 +85,18 @@ pub fn run(ctx: &Ctx) -> Report {
     let mut st = p.st;
     let mut complete = p.complete;
     rep.set("preemption_scenarios", Value::Array(p.info));
+    // 1b. a collection waits for META_LOCK (held by a loading reader) instead of giving up
+    for hold_ms in [60u64, 300] {
+        for sim in [false, true] {
+            st.eval();
+            st.count("meta_lock_holder_cases");
+            match std::panic::catch_unwind(std::panic::AssertUnwindSafe(|| check_gc_waits_for_meta_lock(hold_ms, sim))) {
+                Ok(None) => {}
+                Ok(Some((r, w))) => st.violation(Violation::new(&r, w, json!({"meta_lock_hold_ms":hold_ms,"sim":sim}))),
+                Err(e) => st.violation(Violation::new("collection_panics", panic_message(e), json!({"meta_lock_hold_ms":hold_ms,"sim":sim}))),
+            }
+        }
+    }
     // 2. histories with the directory oracle
     let (hs, hc, hinfo) = crate::c02::run_phases(ctx, "C10", if ctx.tier.is_thorough() { &[0, 1, 4] } else { &[1, 4] });
     complete &= hc;
@@ -43,7 +109,7 @@ pub fn run(ctx: &Ctx) -> Report {
     rep.set("crash_deviation_bound", c.dev as u64);
     st.merge(c.st);
     rep.set("exhaustive", complete);
-    rep.set("rule", "(1) single-preemption exploration: for every storage operation of every indexing worker, compressor, merge thread and the caller during add / delete / commit / merge, a collection is forced in front of it on the updater thread (cut after every document or not); for every storage operation of a reader reload (own and second Index handle) each of five writer-side actions (commit; merge + collect; emptying commit + collect; commit + merge + collect + drop writer; rollback + payload commit + collect) is forced in front of it; for every storage operation of a merge thread the writer is dropped and a new writer commits; for every storage operation of the writer side a new reader loads the index: no call and no open fails for a missing file, and after a closing commit + collection the directory holds exactly the committed files and a matching managed list. (2) every history of the C02 alphabet up to the phase depth (single worker, cut after every document, eager merge policy) on SimDirectory: after every commit, awaited merges and a collection the directory is exact and readable. (3) every crash image of the C01 family, recovered, followed by delete-only commits, an add, a commit and a collection: directory exact");
+    rep.set("rule", "(0) a thread holds META_LOCK for 60 / 300 ms across a commit that empties a segment (RamDirectory and SimDirectory): the commit's collection waits for the lock, so that the directory is exact once the commit has returned and the lock is released. (1) single-preemption exploration: for every storage operation of every indexing worker, compressor, merge thread and the caller during add / delete / commit / merge, a collection is forced in front of it on the updater thread (cut after every document or not); for every storage operation of a reader reload (own and second Index handle) each of five writer-side actions (commit; merge + collect; emptying commit + collect; commit + merge + collect + drop writer; rollback + payload commit + collect) is forced in front of it; for every storage operation of a merge thread the writer is dropped and a new writer commits; for every storage operation of the writer side a new reader loads the index: no call and no open fails for a missing file, and after a closing commit + collection the directory holds exactly the committed files and a matching managed list. (2) every history of the C02 alphabet up to the phase depth (single worker, cut after every document, eager merge policy) on SimDirectory: after every commit, awaited merges and a collection the directory is exact and readable. (3) every crash image of the C01 family, recovered, followed by delete-only commits, an add, a commit and a collection: directory exact");
     rep.set("states", st.counters.get("observations").copied().unwrap_or(0).max(1));
     rep.set("transitions", st.counters.get("transitions").copied().unwrap_or(0).max(1));
     rep.set("schedules", st.counters.get("preemptions_fired").copied().unwrap_or(0));
